@@ -9,6 +9,7 @@ import (
 
 type schedGen struct {
 	profile string
+	window  string
 	ops     []Op
 	i       int
 }
@@ -32,8 +33,21 @@ func newSchedGen(r *RNG, tier string, profile string) *schedGen {
 	for _, d := range digests {
 		keys = append(keys, hx(mkMultihash(0x12, d)))
 	}
+	// window variant (c06): the collector runs alone except for ONE window at a chosen point (between the copy of a relocated
+	// record and the index update, after the freelist hand-over, between busy check and mark ...) in which the other threads run
+	// whole calls; no call then overlaps a collector mutation (known finding D18 cannot mask what the window exposes). Values keep
+	// one length so that a relocated record and its successor differ in offset only.
+	window := profile == "c06" && r.Bool(40)
+	fixedLen := 0
+	if window {
+		fixedLen = 1 + r.Intn(4)
+		pfs = []int{64, 200}[r.Intn(2)]
+	}
 	val := func() string {
 		b := make([]byte, 1+r.Intn(6))
+		if fixedLen > 0 {
+			b = make([]byte, fixedLen)
+		}
 		for i := range b {
 			b[i] = byte(r.Intn(256))
 		}
@@ -126,10 +140,25 @@ func newSchedGen(r *RNG, tier string, profile string) *schedGen {
 				g.ops = append(g.ops, mkOp("sprep", "op", "flush"))
 			}
 		}
+		if window {
+			// every key present and its file left behind, so that a low-use cycle has records to move
+			for _, k := range keys {
+				g.ops = append(g.ops, mkOp("sprep", "op", "put:"+k+":"+val()))
+			}
+			g.ops = append(g.ops, mkOp("sprep", "op", "flush"))
+			// the first key stays where it is while its neighbours are superseded: its file becomes low-use with one live record
+			for i := 0; i < 3+r.Intn(4); i++ {
+				g.ops = append(g.ops, mkOp("sprep", "op", "put:"+keys[1+r.Intn(len(keys)-1)]+":"+val()))
+				if r.Bool(70) {
+					g.ops = append(g.ops, mkOp("sprep", "op", "flush"))
+				}
+			}
+			g.ops = append(g.ops, mkOp("sprep", "op", "flush"))
+		}
 		nt := 2 + r.Intn(2)
 		// owned mode: every key has one writer (key i belongs to thread i mod nt), so that no two mutators of ONE key overlap
 		// (known finding D17) and every lost or resurrected update is attributable to interference BETWEEN keys
-		owned := r.Bool(50)
+		owned := r.Bool(50) || window
 		for t := 0; t < nt; t++ {
 			var ops []string
 			for j := 0; j < 1+r.Intn(3); j++ {
@@ -160,12 +189,30 @@ func newSchedGen(r *RNG, tier string, profile string) *schedGen {
 					ops = append(ops, "size:"+k)
 				}
 			}
+			if window && t == 0 {
+				// the owner of the record the collector will move writes it inside the window
+				first := "put:" + keys[0] + ":" + val()
+				if r.Bool(25) {
+					first = "rm:" + keys[0]
+				}
+				ops = append([]string{first}, ops...)
+			}
 			g.ops = append(g.ops, mkOp("sthread", "name", fmt.Sprintf("t%d", t), "ops", strings.Join(ops, ",")))
 		}
 		if r.Bool(70) {
 			g.ops = append(g.ops, mkOp("sthread", "name", "f", "ops", "flush"))
 		}
-		if profile == "c06" {
+		if window {
+			gop := "pgc:" + strconv.Itoa([]int{85, 100, 50}[r.Intn(3)])
+			points := []string{"primary.gc.reloc.read", "primary.gc.reloc.put", "primary.gc.reloc.index_updated", "primary.gc.reloc.read", "primary.gc.reloc.put",
+				"primary.gc.tgc_done", "primary.gc.flushed", "primary.gc.fl.applied"}
+			if r.Bool(20) {
+				gop = "igc:" + strconv.Itoa(r.Intn(2))
+				points = []string{"index.gc.busy_checked", "index.gc.start"}
+			}
+			g.ops = append(g.ops, mkOp("sthread", "name", "g", "ops", gop))
+			g.window = "g:" + points[r.Intn(len(points))] + ":" + strconv.Itoa(1+r.Intn(3))
+		} else if profile == "c06" {
 			var ops []string
 			for j := 0; j < 1+r.Intn(2); j++ {
 				if r.Bool(55) {
@@ -187,7 +234,9 @@ func newSchedGen(r *RNG, tier string, profile string) *schedGen {
 			sched = append(sched, strconv.Itoa(t))
 		}
 	}
-	if r.Bool(60) {
+	if g.window != "" {
+		g.ops = append(g.ops, mkOp("srun", "sched", strings.Join(sched, ","), "max", "1500", "window", g.window))
+	} else if r.Bool(60) {
 		// every lock acquisition of the index, primary, freelist and store is a scheduling point too
 		g.ops = append(g.ops, mkOp("srun", "sched", strings.Join(sched, ","), "max", "3000", "locks", "1"))
 	} else {
